@@ -106,7 +106,7 @@ REGISTRY = {
     },
     "C16": {
         "level": "proof",
-        "modules": ["SkaModel.Props.C16"],
+        "modules": ["SkaModel.Props.C16", "SkaModel.Props.C16Bits", "SkaModel.Props.C16Roll"],
         "gen": ["C16"],
         "rule": "generated per (k, width): all split k-mers for small k, structured + random integers, random sequences with N; non-trivial = distinct case lines whose result is a value (not none/panic)",
         "trusted_base": COMMON_TRUST,
@@ -144,7 +144,7 @@ REGISTRY = {
     },
     "C01": {
         "level": "proof",
-        "modules": ["SkaModel.Props.C01"],
+        "modules": ["SkaModel.Props.C01", "SkaModel.Props.C01Iter"],
         "gen": ["C01"],
         "cli": [cli.c01_cli],
         "rule": "record sets aimed at window boundaries (lengths k-1..k+2, N at 0..k+2 from either end, repeats, self-rc arms, mixed case), all 30 k, both strands, both widths; exhaustive {A,C,G,T,N}^<=L at k=5/7; non-trivial = distinct case lines yielding at least one k-mer",
